@@ -69,6 +69,9 @@ class StepProbe:
         self.armed = False
         self.fired = False
         self.eom_pos = 0      # position in the deriv, rk1, rk2 cycle
+        # which of the user's callables of a time-dependent system raises (Hamiltonian, rate, Lindblad operator):
+        # they are all evaluated in the specification's stage "H"
+        self.which = ("H", "rate", "lop")[self.fail_step % 3] if isinstance(self.fail_step, int) else "H"
 
     def step_of(self, t):
         return int(np.floor((t - START) / DT + 1e-9))
@@ -81,8 +84,21 @@ class StepProbe:
 
     def ham(self, t):
         k = self.step_of(t)
-        self.maybe_fail(k, "H")
+        if self.which == "H":
+            self.maybe_fail(k, "H")
         return _ham_step(k)
+
+    def rate(self, t):
+        k = self.step_of(t)
+        if self.which == "rate":
+            self.maybe_fail(k, "H")
+        return 0.1 + 0.05 * (k % 4)
+
+    def lop(self, t):
+        k = self.step_of(t)
+        if self.which == "lop":
+            self.maybe_fail(k, "H")
+        return SM + 0.1 * (k % 2) * SZ
 
     def ham_field(self, t, a):
         k = self.step_of(t)
@@ -115,7 +131,8 @@ def make_tempo(fail):
     params = oqupy.TempoParameters(dt=DT, epsrel=1e-14, dkmax=2, add_correlation_time=DT,
                                    subdiv_limit=None)
     rho0 = np.array([[0.7, 0.2 - 0.1j], [0.2 + 0.1j, 0.3]])
-    t = oqupy.Tempo(oqupy.TimeDependentSystem(pr.ham), bath, params, rho0, START)
+    t = oqupy.Tempo(oqupy.TimeDependentSystem(pr.ham, gammas=[pr.rate], lindblad_operators=[pr.lop]), bath, params, rho0,
+                    START)
     pr.armed = True
     return t, pr
 
@@ -469,7 +486,8 @@ def run(ctx):
                 "non-trivial = contains at least one compute/restart")
     ctx.exhaustive = True
     ctx.assumptions += ["content equality is decided against an uninterrupted run of a fresh object (tolerance 1e-9)",
-                        "failure = exception raised by the user's Hamiltonian / field equation, fired once"]
+                        "failure = exception raised by the user's Hamiltonian, Lindblad rate, Lindblad operator (TEMPO; chosen by the "
+                        "failing step) or field equation, fired once"]
 
 
 def replay(ctx, rep):
